@@ -25,4 +25,8 @@ C26_Components == ObsComps = SpecComps
 C26_Distances == LET Dm == Dist(F, DO, 0) IN
                    IF C.dist_err THEN 0 \notin Nodes(F, DO)
                    ELSE SetOf(C.dist) = {<<b, Dm[b]>> : b \in DOMAIN Dm}
+\* weighted distances (length_km of lines, 0 for transformers and switches), logged in metres
+C26_WeightedDistances == LET Dm == WDist(F, DO, 0) IN
+                   IF C.wdist_err THEN 0 \notin Nodes(F, DO)
+                   ELSE SetOf(C.wdist) = {<<b, 1000 * Dm[b]>> : b \in DOMAIN Dm}
 =============================================================================
